@@ -206,8 +206,10 @@ def check_replace(s, stats, case):
 
     def snapshot():
         # what the signature and its parameters carry, by value (lists and maps copied) and by identity of the leaves
-        return (dict((k, dict(v) if isinstance(v, dict) else list(v)) for k, v in s.sources.items()), id(s.upgraded_return_annotation), str(s),
-                [(q.name, id(q.upgraded_annotation), list(q.sources), dict(q.source_depths)) for q in ps])
+        def cp(v):
+            return dict(v) if isinstance(v, dict) else list(v) if isinstance(v, (list, tuple)) else repr(v)
+        return (dict((k, cp(v)) for k, v in s.sources.items()), id(s.upgraded_return_annotation), str(s),
+                [(q.name, id(q.upgraded_annotation), cp(q.sources), cp(q.source_depths)) for q in ps])
     before = snapshot()
     try:
         _check_replace(s, ps, stats, case)
